@@ -377,5 +377,5 @@ func checkC01(t *testing.T, job *Job, res *Result) {
 		b = Bounds{D: 2, S: 1, Total: 2}
 	}
 	res.Rule = "configurations = command {deploy, rollout deploy} x pre-state {absent, active, active+rollout+split} x 1..3 new targets x per-target probe script {ok, k failures (refused/500/slow) then ok, never ok, first 2xx just before/after the deploy timeout, flapping} x client threads issuing plain and cookie requests spread over the command; per configuration every schedule within the deviation bounds; oracle O1-O5 of DESIGN.md C01 on target-side logs"
-	runS(t, job, res, "C01", scs, b, 4000)
+	runS(t, job, res, "C01", withReversed(scs), b, 4000)
 }
